@@ -531,7 +531,15 @@ def r12_inverse_guarded(ck, P):
                 y = f.v(x.a[1]); o = x.a[1]
                 while y is not None and y.op in ('sext', 'zext', 'trunc'):
                     o = y.a[0]; y = f.v(o)
-                if o[0] == 'a' and not any(t.op == 'icmp' for t in f.insts()):
+                def _tests_param(t, k):
+                    for q in t.a:
+                        z = f.v(q)
+                        while z is not None and z.op in ('sext', 'zext', 'trunc'):
+                            q = z.a[0]; z = f.v(q)
+                        if list(q) == ['a', k]:
+                            return True
+                    return False
+                if o[0] == 'a' and not any(t.op == 'icmp' and _tests_param(t, o[1]) for t in f.insts()):
                     helpers[fn] = o[1]
     n = 0
     for fn, f in sorted(u.functions.items()):
@@ -565,3 +573,97 @@ def r12_inverse_guarded(ck, P):
                 ck.violation(R, fn, 'call of %s at %s' % (c.callee, c.loc()), '%s calls %s, which divides by its argument, on a path on which that argument has not been tested against 0 by itself: with exactly this factor zero the division traps, and without the reverse matrix the function reports success for a scale that has no inverse' % (fn, c.callee), c.loc())
     if n == 0:
         ck.incomplete(R, 'no call of a dividing helper found in pixman-matrix.c')
+
+
+
+def r13_narrowed_results_range_tested(ck, P):
+    """T-GRD: a 64-bit quotient, product or sum that becomes a 16.16 value is narrowed only after it has been compared with both ends of
+    the 32-bit range (point / point_3d narrow first and compare back: C11-R2)."""
+    R = ck.rule('C11-R13', 'in pixman-matrix.c every truncation of a 64-bit arithmetic result (quotient, product, sum, or a phi of them) to 32 bits is dominated by a comparison of that value with INT32_MAX and one with INT32_MIN whose failing sides do not reach the truncation: 1/sx for |sx| <= 2/65536 and an overflowing matrix product are reported with FALSE instead of being stored wrapped', floor=2)
+    u = P.units.get(UNIT)
+    if u is None:
+        raise AnalysisBroken('pixman-matrix.c not compiled')
+    n = 0
+    for fn, f in sorted(u.functions.items()):
+        for x in f.insts():
+            if x.op != 'trunc' or x.ty != 'i32':
+                continue
+            src = f.v(x.a[0])
+            if src is None or src.ty != 'i64' or src.op not in ('sdiv', 'udiv', 'mul', 'add', 'sub', 'shl', 'phi'):
+                continue
+            n += 1; ck.saw(f)
+            lo = hi = False
+            for br, succ in f.guard_edges(x.bb.id):
+                if not br.a:
+                    continue
+                cc, pred, ops = f.cond(br.a[0])
+                if cc is None or cc.op != 'icmp' or not any(f.strip_casts(o) == f.strip_casts(x.a[0]) for o in ops):
+                    continue
+                taken_true = br.d['succ'][0] == succ
+                p = pred if taken_true else f.INV.get(pred, pred)
+                k = [int(o[1]) for o in ops if o[0] == 'c']
+                if not k:
+                    continue
+                if ops[0][0] == 'c':
+                    p = {'slt': 'sgt', 'sgt': 'slt', 'sle': 'sge', 'sge': 'sle'}.get(p, p)
+                if p == 'sle' and k[0] <= (1 << 31) - 1 or p == 'slt' and k[0] <= (1 << 31):
+                    hi = True
+                if p == 'sge' and k[0] >= -(1 << 31) or p == 'sgt' and k[0] >= -(1 << 31) - 1:
+                    lo = True
+            where = '%s: narrowing of a %s at %s' % (fn, src.op, x.loc())
+            if lo and hi:
+                ck.ok(R, where, 'min <= v <= max established')
+            else:
+                ck.violation(R, fn, 'narrowing at %s' % x.loc(), '%s truncates the 64-bit result of a %s to 32 bits without the %s range test on the way: a value outside 16.16 is stored wrapped and success is reported (1/sx for sx = 1/65536 becomes 0)' % (fn, src.op, 'upper and lower' if not (lo or hi) else 'upper' if not hi else 'lower'), x.loc())
+    if n == 0:
+        raise AnalysisBroken('C11-R13: no narrowing of a 64-bit arithmetic result found in pixman-matrix.c')
+
+
+def r14_negation_excludes_minimum(ck, P):
+    """T-GRD: -x of a caller-supplied 16.16 value is not representable for the most negative value; a function that can report failure
+    excludes that value before it negates."""
+    R = ck.rule('C11-R14', 'in every exported function of pixman-matrix.c that returns a status, a parameter is negated (0 - x in 32 bits), or handed to a helper that negates it, only after a test that it is not the most negative 16.16 value: otherwise the reverse transform receives the un-negated value and TRUE is returned', floor=3)
+    u = P.units.get(UNIT)
+    if u is None:
+        raise AnalysisBroken('pixman-matrix.c not compiled')
+    # helpers that negate a parameter without being able to report it (void init functions)
+    neg_params = {}
+    for fn, f in u.functions.items():
+        for x in f.insts():
+            if x.op == 'sub' and x.ty == 'i32' and x.a[0][0] == 'c' and int(x.a[0][1]) == 0 and x.a[1][0] == 'a':
+                neg_params.setdefault(fn, set()).add(x.a[1][1])
+    n = 0
+    for fn, f in sorted(u.functions.items()):
+        if not f.exported or f.type.startswith('void '):
+            continue
+        sites = []
+        for x in f.insts():
+            if x.op == 'sub' and x.ty == 'i32' and x.a[0][0] == 'c' and int(x.a[0][1]) == 0 and x.a[1][0] == 'a':
+                sites.append((x, x.a[1][1], 'negated'))
+            if x.op == 'call' and x.callee in neg_params:
+                for k in neg_params[x.callee]:
+                    if k < len(x.a) and x.a[k][0] == 'a':
+                        sites.append((x, x.a[k][1], 'handed to %s, which negates it' % x.callee))
+        for x, k, how in sites:
+            n += 1; ck.saw(f)
+            ok = False
+            for br, succ in f.guard_edges(x.bb.id):
+                if not br.a:
+                    continue
+                cc, pred, ops = f.cond(br.a[0])
+                if cc is None or cc.op != 'icmp' or pred not in ('eq', 'ne'):
+                    continue
+                if not any(list(f.strip_casts(o)) == ['a', k] for o in ops):
+                    continue
+                if not any(o[0] == 'c' and int(o[1]) == -(1 << 31) for o in ops):
+                    continue
+                if (pred == 'ne') == (br.d['succ'][0] == succ):
+                    ok = True
+            pn = f.params[k][0] or 'parameter %d' % k
+            where = '%s: %s %s at %s' % (fn, pn, how, x.loc())
+            if ok:
+                ck.ok(R, where, 'minimum excluded')
+            else:
+                ck.violation(R, fn, 'negation of %s' % pn, '%s: %s is %s at %s although no test on that path excludes the most negative 16.16 value, whose negation is not representable: the matrix receives -32768.0 where +32768.0 is meant and TRUE is returned' % (fn, pn, how, x.loc()), x.loc())
+    if n == 0:
+        raise AnalysisBroken('C11-R14: no negation of a parameter in a status-returning function of pixman-matrix.c found')
